@@ -81,11 +81,21 @@ def run_property(mod, prop, seed, tier, seconds, max_cases, replay=None):
             i += 1
             try:
                 verdict = mod.eval_case(case, drv)
-            except Exception as e:  # harness bug or driver crash: infrastructure, not a verdict
-                out.notes.append(f"harness error on {origin}: {type(e).__name__}: {e}")
-                out.notes.append(traceback.format_exc()[-1500:])
-                out.infra_error = True
-                break
+            except Exception as e:
+                tb = traceback.extract_tb(e.__traceback__)
+                in_xgcm = [f for f in tb if os.sep + "xgcm" + os.sep in f.filename and os.sep + "harness" + os.sep not in f.filename]
+                if in_xgcm:
+                    # the harness guards every call it expects to be refused; an exception that escapes from inside
+                    # xgcm on a generated (well-posed) input is the implementation failing where an answer is due
+                    last = in_xgcm[-1]
+                    verdict = {"corr_ok": False, "prop_ok": False, "branch": "uncaught-exception-from-xgcm",
+                               "detail": {"exception": f"{type(e).__name__}: {str(e)[:200]}",
+                                          "raised_at": f"{os.path.basename(last.filename)}:{last.lineno} in {last.name}"}}
+                else:  # harness bug or driver crash: infrastructure, not a verdict
+                    out.notes.append(f"harness error on {origin}: {type(e).__name__}: {e}")
+                    out.notes.append(traceback.format_exc()[-1500:])
+                    out.infra_error = True
+                    break
             nt = bool(mod.nontrivial(case, verdict))
             out.count(case, nt)
             out.hist[verdict.get("branch", "?")] += 1
